@@ -7,6 +7,11 @@ BASELINE_CMD = "cd /repo && /venv/bin/python -m pytest -ra -q -p no:cacheprovide
 
 # id -> (level, quick timeout s, thorough timeout s, technique, level text, level note, design ref)
 CHECKS = {
+ 'C03': ('fault_enumeration', 1500, 7200,
+         'deterministic simulation with fault injection: real KWN model behind a fault-injecting thermodynamics proxy; single-fault position enumeration per workload + seeded fault sequences + fault-free configuration swarm; well-formedness invariants every step',
+         'Every accepted step and every call history of every run is checked for alignment, finiteness, ranges, monotone time and exact end time; for fixed workloads every backend-call index receives a single "no result" fault and a burst of three; seeded sequences add mixed rates and bursts, real-backend runs exercise kawin.thermo\'s own fallback.',
+         'Faults are injected only after model.setup() (transient failures of a running model); binary "unstable" sentinels and driving-force failures are probed informationally only; conservation is not asserted under faults. Known findings: pycalphad ZeroDivisionError escaping local_equilibrium; total fraction > 1 when one phase is clamped at 1.',
+         'DESIGN.md 4/C03'),
  'C05': ('exploration', 900, 3600,
          'deterministic simulation: seeded adversarial plug-in models (dt proposals, stop requests, state layouts, coupler mixes) driving the real DESolver; contract oracle on the accepted-time history',
          'Seeded search over adversarial model behaviour and solve-call schedules; every accepted time, step size, stop and callback state structure is checked against the stated contract. Sampling, not enumeration.',
